@@ -186,17 +186,37 @@ def run_case(i, rng, tier):
     sb = S.gen_stream(rng, sp2, rng.choice([0, 0, 3, 8]))
     wit = {"tree": S.describe(sp), "other": S.describe(sp2), "spec": sp, "spec2": sp2, "mutation": desc, "path": list(path), "stream_a": C.stream_json(sa), "stream_b": C.stream_json(sb)}
     # operand states: live, or reloaded from JSON (a reachable state: no value templates, no quantities)
-    reload_a, reload_b = rng.random() < 0.3, rng.random() < 0.3
-    wit["reloaded"] = [reload_a, reload_b]
+    # operand states: live, or derived by a short chain of reload / scale / copy / pickle (all reachable states)
+    CHAINS = [(), (), (), ("reload",), ("reload",), ("scale",), ("copy",), ("pickle",), ("reload", "scale"), ("scale", "reload"), ("reload", "copy"), ("reload", "scale", "reload")]
+    chain_a, chain_b = rng.choice(CHAINS), rng.choice(CHAINS)
+    if S.has_transform(sp) or S.has_transform(sp2):
+        chain_a = tuple(c for c in chain_a if c != "scale")
+        chain_b = tuple(c for c in chain_b if c != "scale")
+    reload_a, reload_b = "reload" in chain_a, "reload" in chain_b
+    wit["reloaded"] = [list(chain_a), list(chain_b)]
     counters["reloaded_operands"] = int(reload_a) + int(reload_b)
+    for ch_ in (chain_a, chain_b):
+        counters["operand_state:" + ("+".join(ch_) or "live")] = counters.get("operand_state:" + ("+".join(ch_) or "live"), 0) + 1
+
+    def derive(x, chain):
+        import pickle
+
+        for step in chain:
+            if step == "reload":
+                x = x.toImmutable()
+            elif step == "scale":
+                x = x * 2.0
+            elif step == "copy":
+                x = x.copy()
+            elif step == "pickle":
+                x = pickle.loads(pickle.dumps(x))
+        return x
     for op, order in (("+", "ab"), ("+", "ba"), ("+=", "ab"), ("+=", "ba")):
         try:
             a = C.fill_all(S.build(sp), sa)
             b = C.fill_all(S.build(sp2), sb)
-            if reload_a:
-                a = a.toImmutable()
-            if reload_b:
-                b = b.toImmutable()
+            a = derive(a, chain_a)
+            b = derive(b, chain_b)
         except Exception:  # noqa: BLE001
             return {"digest": C.digest(sp, desc), "nontrivial": False, "failures": [], "counters": {"mutant_not_fillable": 1}, "sets": sets}
         if reload_a or reload_b:
@@ -240,10 +260,8 @@ def run_case(i, rng, tier):
                 # both operands untouched (neutraliser).
                 a2 = C.fill_all(S.build(sp), sa)
                 b2 = C.fill_all(S.build(sp2), sb)
-                if reload_a:
-                    a2 = a2.toImmutable()
-                if reload_b:
-                    b2 = b2.toImmutable()
+                a2 = derive(a2, chain_a)
+                b2 = derive(b2, chain_b)
                 x2, y2 = (a2, b2) if order == "ab" else (b2, a2)
                 t2x, t2y = O.text(x2), O.text(y2)
                 try:
